@@ -501,6 +501,9 @@ func checkOptionSplitter(c *Ctx, rule string) {
 // checkOptionWordMonotone: every store to the option word NetworkRule.<field> anywhere in the library
 // is 'field | bits'.  extBit: the one documented way to take a bit back (the negated modifier
 // ~extension toggles OptionExtension in enabledOptions); 0 for none.
+// monotoneConstOK: a constant that may be assigned to a flag word outright (filled by the caller).
+var monotoneConstOK = map[string]int64{}
+
 func checkOptionWordMonotone(c *Ctx, rule, field string, extBit int64, why string) {
 	ws := fieldWrites(c.P, "rules", "NetworkRule", field)
 	n := 0
@@ -523,6 +526,10 @@ func checkOptionWordMonotone(c *Ctx, rule, field string, extBit int64, why strin
 				c.OK(rule, shortFn(w.Fn)+": ~extension takes the extension bit back", w.Instr.Pos(), "documented exception: the negated modifier ~extension (not among the modifiers the property ranges over)")
 				continue
 			}
+		}
+		if k, isK := w.Val.(*ssa.Const); isK && !ok && k.Value != nil && monotoneConstOK[field] != 0 && k.Int64() == monotoneConstOK[field] {
+			c.OK(rule, shortFn(w.Fn)+": "+field+" forced to the document type", w.Instr.Pos(), "documented: a document-level modifier restricts the rule to document requests")
+			continue
 		}
 		c.Check(ok, rule, shortFn(w.Fn)+": store to "+field+" is '"+field+" | bits'", w.Instr.Pos(), "or-assignment", why)
 	}
